@@ -157,7 +157,13 @@ class Ctx:
                 sim.count("fault.handler_raise")
                 raise HandlerRaise("%s %s #%d" % (lab, name, c))
 
+    def _rec_args(self, event, _tag):
+        return self._rec(event)
+
     def rec_handlers(self):
+        if self.sc.get("handler_args"):
+            # the documented (event, handler, [args]) form of binding
+            return [(e, self._rec_args, ["dsim"]) for e in _notification_events()]
         return [(e, self._rec) for e in _notification_events()]
 
     # -- construction helpers ----------------------------------------------------
